@@ -657,6 +657,27 @@ func c04Exec(f []string) (ans string, alloc uint64) {
 		})
 		env.Sync()
 		return res + fmt.Sprintf(" sessions=%d", len(env.Table())), alloc
+	case "process":
+		// conn.process: the reply assembly, with a host whose next() has nothing (nil), or a keep-alive,
+		// a single / multi-device packet, channel mode on / off and 0..2 tag-resolved batches
+		nextNil, md, o := f[1] == "1", f[2] == "1", f[3] == "1"
+		add, _ := strconv.Atoi(f[4])
+		var id device.ID
+		id[0], id[3] = 5, 1
+		srv := &c2.VerifC04Server{}
+		h := &c2.VerifC04Host{ID: id, Srv: srv, NextNil: nextNil}
+		n := &com.Packet{ID: 0x20, Job: 7, Device: id}
+		if md {
+			var in com.Packet
+			in.ID, in.Job, in.Device = 0x21, 8, id
+			n = &com.Packet{Device: id, Flags: com.FlagMulti | com.FlagMultiDevice}
+			in.MarshalStream(n)
+			n.Flags.SetLen(1)
+		}
+		var res string
+		var err error
+		alloc = c04Measure(func() { res, err = c2.VerifC04Process(srv, h, n, o, add) })
+		return fmt.Sprintf("%s reply=%s", c04Cls(err), res), alloc
 	case "procmulti":
 		x, _ := strconv.Atoi(f[1])
 		o := f[2] == "1"
